@@ -10,6 +10,7 @@ lock implementation, the scheduler — those are only searched for with `-race` 
 -/
 import GontainerModel.Lemmas.C20Aux
 import GontainerModel.Model.RuntimeConc
+import GontainerModel.Lemmas.ConcMulti
 import GontainerModel.Generated.Template
 import GontainerModel.Generated.Stub
 namespace GM.C20
@@ -57,6 +58,41 @@ theorem helpers_stateless :
     Generated.tplStructEmbedded = ["Container"] ∧ Generated.tplPackageVars = 0 ∧
     (Generated.tplFuncsNormal.filter (·.2.2)).length = 5 ∧ Generated.tplTypesNormal.length = 1 := by decide
 
+/-! ### all services and all contexts at once -/
+
+/-- the invariant holds in every reachable state of the whole system: any number of threads, services and contexts, any
+interleaving, any length -/
+theorem multi_reachable_inv (s : RuntimeConcMulti.S) (h : RuntimeConcMulti.Reachable s) : RuntimeConcMulti.MInv s := by
+  induction h with
+  | init => exact RuntimeConcMulti.inv_init
+  | step _ st ih => exact RuntimeConcMulti.inv_step _ _ ih st
+
+/-- **each shared service is constructed at most once, and each contextual service at most once per context** — whatever the
+other threads do to other services and contexts in between (cache 0 is the container-wide cache, cache c+1 the bag of context c) -/
+theorem at_most_once_each (s : RuntimeConcMulti.S) (h : RuntimeConcMulti.Reachable s) (c i : Nat) : s.successes c i ≤ 1 := by
+  have hi := multi_reachable_inv s h
+  have hc := hi.count c i
+  cases hcache : s.cache c i with
+  | none => rw [hcache] at hc; simp at hc; rw [hc]; split <;> omega
+  | some n =>
+    have hnf : RuntimeConcMulti.inFlight s c i = false := by
+      cases hfl : RuntimeConcMulti.inFlight s c i
+      · rfl
+      · have := hi.quiet c i hfl; rw [hcache] at this; cases this
+    have hp : RuntimeConcMulti.pendingSerial s c i = none := by
+      unfold RuntimeConcMulti.inFlight at hnf
+      unfold RuntimeConcMulti.pendingSerial
+      split <;> simp_all
+    rw [hcache, hp] at hc
+    simp at hc
+    omega
+
+/-- **a contextual service is never shared between distinct contexts** (nor between a context and the container-wide cache,
+nor between two services): two different (cache, service) pairs never hold the same instance -/
+theorem instances_never_shared (s : RuntimeConcMulti.S) (h : RuntimeConcMulti.Reachable s) (c c' i i' n : Nat)
+    (h1 : s.cache c i = some n) (h2 : s.cache c' i' = some n) : c = c' ∧ i = i' :=
+  (multi_reachable_inv s h).inj c i c' i' n (by simp [RuntimeConcMulti.owned, h1]) (by simp [RuntimeConcMulti.owned, h2])
+
 -- non-vacuity: two threads racing for the same id; the second one hits the cache
 example : Reachable { crit := none, cache := true, successes := 1, hits := 1 } := by
   have s0 : Reachable {} := .init
@@ -67,5 +103,18 @@ example : Reachable { crit := none, cache := true, successes := 1, hits := 1 } :
   have s5 := Reachable.step s4 (.acquire _ 2 rfl)
   have s6 := Reachable.step s5 (.hit _ 2 rfl rfl)
   exact s6
+
+-- non-vacuity of the multi-service system: two contexts each construct their own instance of service 7, with different serials
+example : ∃ s : RuntimeConcMulti.S, RuntimeConcMulti.Reachable s ∧ s.cache 1 7 = some 1 ∧ s.cache 2 7 = some 2 := by
+  have s0 : RuntimeConcMulti.Reachable {} := .init
+  have s1 := RuntimeConcMulti.Reachable.step s0 (.acquire _ 100 1 7 rfl)
+  have s2 := RuntimeConcMulti.Reachable.step s1 (.miss _ 100 1 7 (by simp [RuntimeConcMulti.upd]) rfl)
+  have s3 := RuntimeConcMulti.Reachable.step s2 (.constructOk _ 100 1 7 (by simp [RuntimeConcMulti.upd]))
+  have s4 := RuntimeConcMulti.Reachable.step s3 (.publish _ 100 1 7 1 (by simp [RuntimeConcMulti.upd]))
+  have s5 := RuntimeConcMulti.Reachable.step s4 (.acquire _ 200 2 7 (by simp [RuntimeConcMulti.upd]))
+  have s6 := RuntimeConcMulti.Reachable.step s5 (.miss _ 200 2 7 (by simp [RuntimeConcMulti.upd]) (by simp [RuntimeConcMulti.upd2]))
+  have s7 := RuntimeConcMulti.Reachable.step s6 (.constructOk _ 200 2 7 (by simp [RuntimeConcMulti.upd]))
+  have s8 := RuntimeConcMulti.Reachable.step s7 (.publish _ 200 2 7 2 (by simp [RuntimeConcMulti.upd]))
+  exact ⟨_, s8, by simp [RuntimeConcMulti.upd2], by simp [RuntimeConcMulti.upd2]⟩
 
 end GM.C20
